@@ -1,1 +1,16 @@
--- root of the regenerated library (written by harness/translate.py on every run)
+-- GENERATED root of the regenerated library
+import IOptGen.AllocSites
+import IOptGen.Dy
+import IOptGen.Gkls
+import IOptGen.GklsData2
+import IOptGen.GklsData3
+import IOptGen.GklsData4
+import IOptGen.GklsData5
+import IOptGen.GrishaginTables
+import IOptGen.HillTables
+import IOptGen.ListenerSig
+import IOptGen.Meta
+import IOptGen.NodeTable
+import IOptGen.SelfCheck
+import IOptGen.Shekel4Tables
+import IOptGen.ShekelTables
